@@ -19,7 +19,7 @@ def _step(st):
     if a == "Recv":
         return f"Recv({st['id']}:{st['ty']}:{st['from']})"
     if a in ("Open", "Close"):
-        return f"{a}({st['k']})"
+        return f"{a}({st['k']})" if "k" in st else a
     if a == "Call":
         return f"Call({st['name']})"
     if a == "Reply":
@@ -63,20 +63,6 @@ def _aborts(chk, s, behs, cases, what):
             raise vf.MachineryError(f"{what}: {s['aborts']} of {len(behs)} executions could not be driven ({why[:5]}): nothing was decided")
 
 
-def _replay(chk, driver, behs, trace_spec, tag):
-    bpath = chk.path(f"behaviours-{tag}.ndjson")
-    vf.write_ndjson(bpath, behs)
-    trace = chk.path(f"trace-{tag}.ndjson")
-    r = vf.qxv(driver, trace, in_path=bpath, seed=chk.seed, tier=chk.tier, check=False)
-    vf.repair_truncated(trace)
-    if r["rc"] != 0 or r["sanitizer"]:
-        raise vf.MachineryError(f"qxv {driver} ended abnormally (rc={r['rc']}, {vf.san_signature(r)}):\n{r['stderr'][-2000:]}")
-    cases = vf.split_cases(trace)
-    s = vf.tlc_trace(trace_spec + ".tla", trace_spec + ".cfg", trace)
-    s["replay_wall_s"] = r["wall_s"]
-    return s, cases
-
-
 def run_tracker(chk, replay):
     quick = chk.tier == "quick"
     chk.mc(vf.tlc_mc("IqTracker.tla", "IqTracker.cfg", workers=TLC_WORKERS), "IqTracker.cfg")
@@ -87,32 +73,34 @@ def run_tracker(chk, replay):
     else:
         t1, st1 = vf.tlc_gen("IqTrackerGen.tla", "IqTrackerGenTour.cfg")
         t2, st2 = vf.tlc_gen("IqTrackerGen.tla", "IqTrackerGenTour2.cfg")
-        sim, st3 = vf.tlc_simulate("IqTrackerGen.tla", "IqTrackerGenSim.cfg", num=150 if quick else 5000, depth=14 if quick else 24,
+        sim, st3 = vf.tlc_simulate("IqTrackerGen.tla", "IqTrackerGenSim.cfg", num=150 if quick else 1500, depth=14 if quick else 24,
                                    seed=chk.seed, workers=TLC_WORKERS)
         allp, st5 = vf.tlc_gen("IqTrackerGen.tla", "IqTrackerGenAll.cfg" if quick else "IqTrackerGenAll7.cfg")
         gen = {"all_paths": st5, "tour_1_request": st1, "tour_2_requests": st2, "simulate": st3}
         behs = allp + t1 + t2 + sim
         if not quick:
             t3, st4 = vf.tlc_gen("IqTrackerGen.tla", "IqTrackerGenTourFull.cfg")
-            st4["replayed"] = min(len(t3), 40000)
+            st4["replayed"] = min(len(t3), 15000)
             random.Random(chk.seed).shuffle(t3)
-            behs += t3[:40000]
+            behs += t3[:15000]
             gen["tour_2_requests_all_senders_sampled"] = st4
         behs = vf.maximal_behaviours(behs)
         chk.cov["generation_tracker"] = gen
     if not behs:
         return
-    s, cases = _replay(chk, "iq", behs, "IqTrackerTrace", "tracker")
+    s, cases, crashes = _replay(chk, "iq", "q", behs, "IqTrackerTrace", "tracker")
     chk.add("traces_validated_against_impl", s["cases"])
     chk.add("trace_lines", s["lines"])
     chk.add("diverged_executions", s["ndiv"])
     chk.add("aborted_executions", s["aborts"])
     chk.cov["tracker"] = {"executions": s["cases"], "trace_lines": s["lines"], "diverged": s["ndiv"], "first_divergences": s["divs"][:3],
-                          "aborted": s["aborts"], "replay_wall_s": s["replay_wall_s"], "trace_validation_wall_s": s["wall_s"]}
+                          "aborted": s["aborts"], "crashed": len(crashes), "replay_wall_s": s["replay_wall_s"],
+                          "trace_validation_wall_s": s["wall_s"]}
     for b in behs[:1] + behs[-2:]:
         chk.sample(b)
     _aborts(chk, s, behs, cases, "tracker")
     _report(chk, s, behs, cases, "tracker", "q")
+    _report_crashes(chk, crashes, behs, cases, "tracker", "q", lambda b: "any")
 
 
 def _api_names():
@@ -122,29 +110,29 @@ def _api_names():
     return json.loads(r.stdout)
 
 
-def _replay_api(chk, behs):
-    """Replay; an execution that crashes the process (sanitizer abort inside the library) is recorded
-    and the replay continues with the next behaviour."""
-    bpath = chk.path("behaviours-api.ndjson")
+def _replay(chk, driver, prefix, behs, trace_spec, tag):
+    """Replay; an execution that crashes the process (sanitizer abort / assertion inside the library) is
+    recorded and the replay continues with the next behaviour."""
+    bpath = chk.path(f"behaviours-{tag}.ndjson")
     vf.write_ndjson(bpath, behs)
-    trace = chk.path("trace-api.ndjson")
+    trace = chk.path(f"trace-{tag}.ndjson")
     open(trace, "w").close()
     crashes = []
     first, wall = 1, 0.0
     while first <= len(behs):
-        part = chk.path("trace-api.part.ndjson")
-        r = vf.qxv("iqapi", part, in_path=bpath, seed=chk.seed, tier=chk.tier, opts={"first": first}, check=False)
+        part = chk.path(f"trace-{tag}.part.ndjson")
+        r = vf.qxv(driver, part, in_path=bpath, seed=chk.seed, tier=chk.tier, opts={"first": first}, check=False)
         wall += r["wall_s"]
         vf.repair_truncated(part)
-        lines = vf.read_ndjson(part)
+        lines = [o for o in vf.read_ndjson(part) if o.get("e") != "Crash"]
         crashed = r["rc"] != 0 or r["sanitizer"]
         last_case = None
         for o in lines:
             if o.get("e") == "Reset":
-                last_case = int(o["case"][1:])
+                last_case = int(o["case"][len(prefix):])
         if crashed:
             if last_case is None:
-                raise vf.MachineryError(f"qxv iqapi died before its first execution:\n{r['stderr'][-2000:]}")
+                raise vf.MachineryError(f"qxv {driver} died before its first execution:\n{r['stderr'][-2000:]}")
             # the execution that was running is cut off after its last complete line; mark it
             lines.append({"e": "Crash", "what": vf.san_signature(r)})
             crashes.append((last_case, vf.san_signature(r), r["stderr"][-1500:]))
@@ -155,12 +143,30 @@ def _replay_api(chk, behs):
             break
         first = last_case + 1
         if len(crashes) >= 120:
-            chk.note("more than 120 executions crashed the harness process: replay of the manager layer stopped early")
+            chk.note(f"more than 120 executions crashed qxv {driver}: replay stopped early")
             break
     cases = vf.split_cases(trace)
-    s = vf.tlc_trace("IqApiTrace.tla", "IqApiTrace.cfg", trace)
+    s = vf.tlc_trace(trace_spec + ".tla", trace_spec + ".cfg", trace)
     s["replay_wall_s"] = round(wall, 2)
+    s["aborts"] -= len(crashes)
     return s, cases, crashes
+
+
+def _report_crashes(chk, crashes, behs, cases, layer, prefix, key):
+    """A request whose handling kills the process never completes."""
+    best = {}
+    for case_no, sg, err in crashes:
+        b = behs[case_no - 1]
+        done = [x for x in cases.get(f"{prefix}{case_no}", []) if x.get("e") not in ("Reset", "Crash")]
+        upto = b["steps"][:len(done) + 1]
+        sig = f"C07:{layer}:Crash:" + ",".join(_step(st) for st in upto)
+        k = key(b)
+        if k not in best or (len(upto), sig) < best[k][0]:     # the shortest history per API is the one reported
+            best[k] = ((len(upto), sig), sg, err, b, case_no)
+    for k in sorted(best)[:4]:
+        (_, sig), sg, err, b, case_no = best[k]
+        chk.violation(sig, f"the process dies ({sg}) while the library handles the last step of {sig}: the request never completes\n{err[-600:]}",
+                      [b] + cases.get(f"{prefix}{case_no}", []))
 
 
 def run_api(chk, replay):
@@ -174,6 +180,14 @@ def run_api(chk, replay):
         g1, st1 = vf.tlc_gen("IqApiGen.tla", "IqApiGenAll.cfg" if quick else "IqApiGenAll4.cfg", env=env)
         g2, st2 = vf.tlc_gen("IqApiGen.tla", "IqApiGenMamTour.cfg")
         g3, st3 = ([], {"behaviours": 0}) if quick else vf.tlc_gen("IqApiGen.tla", "IqApiGenMam.cfg")
+        if not quick:
+            # the larger generators are sampled (seeded) to stay inside the thorough budget
+            st1["replayed"] = min(len(g1), 12000)
+            random.Random(chk.seed).shuffle(g1)
+            g1 = g1[:12000]
+            st3["replayed"] = min(len(g3), 6000)
+            random.Random(chk.seed + 1).shuffle(g3)
+            g3 = g3[:6000]
         behs = vf.maximal_behaviours(g2 + g3 + g1)
         for b in behs:
             st = b["steps"][0]
@@ -183,32 +197,19 @@ def run_api(chk, replay):
         chk.cov["generation_api"] = {"registry_size": len(names), "all_answer_scripts": st1, "archive_tour": st2, "archive_all_paths": st3}
     if not behs:
         return
-    s, cases, crashes = _replay_api(chk, behs)
+    s, cases, crashes = _replay(chk, "iqapi", "a", behs, "IqApiTrace", "api")
     chk.add("traces_validated_against_impl", s["cases"])
     chk.add("trace_lines", s["lines"])
     chk.add("diverged_executions", s["ndiv"])
-    chk.add("aborted_executions", s["aborts"] - len(crashes))
+    chk.add("aborted_executions", s["aborts"])
     chk.cov["api"] = {"executions": s["cases"], "trace_lines": s["lines"], "diverged": s["ndiv"], "first_divergences": s["divs"][:3],
-                      "aborted": s["aborts"] - len(crashes), "crashed": len(crashes), "apis": len(names),
+                      "aborted": s["aborts"], "crashed": len(crashes), "apis": len(names),
                       "replay_wall_s": s["replay_wall_s"], "trace_validation_wall_s": s["wall_s"]}
     for b in behs[:1] + behs[-1:]:
         chk.sample(b)
-    s["aborts"] -= len(crashes)
     _aborts(chk, s, behs, cases, "api")
     _report(chk, s, behs, cases, "api", "a")
-    # a request whose answer crashes the process never completes
-    per_api = {}
-    for case_no, sg, err in crashes:
-        b = behs[case_no - 1]
-        done = [x for x in cases.get(f"a{case_no}", []) if x.get("e") not in ("Reset", "Crash")]
-        upto = b["steps"][:len(done) + 1]
-        name = b["steps"][0].get("name", "?")
-        if per_api.get(name, 0) >= 1:
-            continue
-        per_api[name] = per_api.get(name, 0) + 1
-        sig = "C07:api:Crash:" + ",".join(_step(st) for st in upto)
-        chk.violation(sig, f"the process dies ({sg}) while the library handles the last step of {sig}: the request never completes\n{err[-600:]}",
-                      [b] + cases.get(f"a{case_no}", []))
+    _report_crashes(chk, crashes, behs, cases, "api", "a", lambda b: b["steps"][0].get("name", "?"))
 
 
 def run(chk, replay=None):
